@@ -517,6 +517,11 @@ def oracle_vesting(h):
             continue
         u = c.caller
         views = va or vb
+        if not ok:
+            tcb = (V(vb, 'totalClaimable', u) or [0])[0]
+            cbb = (V(vb, 'claimedBal', u) or [0])[0]
+            if tcb > cbb and not (v == 'gt2' and V(vb, 'paused')[0] == 1) and r['status'] == 'user':
+                out.append(viol('C09', i, 'vesting_claim_fails', 'winner %d is owed %d - %d launchpad tokens but the claim is rejected: %s' % (u, tcb, cbb, r['msg'])))
         if ok and va is not None:
             tc = (V(va, 'totalClaimable', u) or [0])[0]
             cb = (V(va, 'claimedBal', u) or [0])[0]
@@ -671,7 +676,12 @@ def oracle_guarantees(h):
         return out
     v = h.variant
     before = None
+    alloc_v1 = {}    # user -> (staking, energy, migrated) from accepted allocations (v1 family)
     for i, c, r, vb, va, b0, b1 in h.steps():
+        if c.ep == 'addTickets' and r['status'] == 'ok' and v in V1:
+            a = c.args[1:]
+            for k in range(c.args[0]):
+                alloc_v1[a[4 * k]] = (a[4 * k + 1], a[4 * k + 2], a[4 * k + 3])
         if vb is not None and V(vb, 'flags')[2] == 1 and V(vb, 'flags')[3] == 0 and before is None:
             before = vb
         if c.ep == 'extra' and r['status'] == 'ok' and r['ret'] == [0] and va is not None and before is not None:
@@ -689,8 +699,9 @@ def oracle_guarantees(h):
                     need = min(q, conf)
                     if len(w1) < need and (V(before, 'blacklisted', a) or [0])[0] == 0:
                         out.append(viol('C11', i, 'honoured', 'participant %d qualifies for %d guaranteed tickets (confirmed %d) but holds %d winners' % (a, q, conf, len(w1))))
-                elif ut and v in ('gt1', 'mig'):
-                    st, en, _, sg, mg = ut
+                elif v in V1 and a in alloc_v1 and (V(before, 'blacklisted', a) or [0])[0] == 0:
+                    st, en, mgf = alloc_v1[a]
+                    sg, mg = (1 if st >= h.min_conf else 0), (1 if mgf else 0)
                     g = 0
                     if conf >= en:
                         g += mg
